@@ -211,6 +211,49 @@ pub fn run(ctx: &Ctx) -> Report {
             }
         }
     }
+    // values that read as attributes: the last attribute of the request (optional, comprehension-required
+    // but supported, SOFTWARE) carries, at every alignment, bytes that read as a complete FINGERPRINT /
+    // MESSAGE-INTEGRITY / MESSAGE-INTEGRITY-SHA256 / USERNAME / PRIORITY attribute, or a whole
+    // fingerprinted STUN message (a relayed packet); the required list names that type.  What is present
+    // is what the attribute walk exposes, not what some bytes of a value look like (seed C16-o)
+    {
+        let look: [(u16, usize); 5] = [(0x8028, 4), (0x0008, 20), (0x001C, 32), (0x0006, 4), (0x0024, 4)];
+        let mut nested = wire::encode_msg(0, 1, tid ^ 0x55, &[(0x8022, b"inner".to_vec())]);
+        wire::append_fp(&mut nested);
+        for (t, l) in look {
+            for pre in 0..4usize {
+                for post in 0..4usize {
+                    for carrier in [0xFF00u16, 0x0013, 0x8022] {
+                        for lead in [false, true] {
+                            for whole in [false, true] {
+                                if whole && (t != 0x8028 || post != 0) {
+                                    continue;
+                                }
+                                let mut b = wire::encode_header(0, 1, tid, 0);
+                                if lead {
+                                    wire::append_raw(&mut b, 0x0014, b"realm");
+                                }
+                                let mut v = vec![0x11u8; 4 + pre];
+                                if whole {
+                                    v.extend(&nested);
+                                } else {
+                                    v.extend(t.to_be_bytes());
+                                    v.extend((l as u16).to_be_bytes());
+                                    v.extend(vec![0x5Au8; l]);
+                                    v.extend(vec![0x22u8; post]);
+                                }
+                                wire::append_raw(&mut b, carrier, &v);
+                                let sup = vec![0x0014u16, 0x0013, 0x0006, 0x0024, 0x0008, 0x001C];
+                                for req in [vec![t], vec![0x0014, t], vec![t, 0x0014], vec![]] {
+                                    many.push(Case::new("police", b.clone()).text(&[&hexl(&sup), &hexl(&req)]));
+                                }
+                            }
+                        }
+                    }
+                }
+            }
+        }
+    }
     let acc_many = crate::props::sweep(many.into_par_iter(), judge);
     // the response constructors called directly: unknown_attributes(request, list) for lists of
     // 0..=400 types (distinct, repeated, optional types included) and bad_request(request)
